@@ -290,6 +290,42 @@ pub fn scalar_eq(a: &MVal, b: &MVal) -> bool {
     a.is_scalar() && a == b
 }
 
+/// Order of two scalars in a filter. Same kind: null = null, false < true, numbers by value, strings bytewise.
+/// Different kinds: the README does not say; the model pins what the evaluator does today
+/// (null < boolean < number < string), so that this detects change, not original sin.
+pub fn scalar_order(a: &MVal, b: &MVal) -> std::cmp::Ordering {
+    use std::cmp::Ordering::*;
+    fn rank(v: &MVal) -> u8 {
+        match v {
+            MVal::Null => 0,
+            MVal::Bool(_) => 1,
+            MVal::I64(_) | MVal::U64(_) | MVal::F64(_) => 2,
+            _ => 3,
+        }
+    }
+    fn num(v: &MVal) -> (Option<i128>, f64) {
+        match v {
+            MVal::I64(n) => (Some(*n as i128), *n as f64),
+            MVal::U64(n) => (Some(*n as i128), *n as f64),
+            MVal::F64(b) => (None, f64::from_bits(*b)),
+            _ => (None, 0.0),
+        }
+    }
+    match (a, b) {
+        (MVal::Bool(x), MVal::Bool(y)) => x.cmp(y),
+        (MVal::Str(x), MVal::Str(y)) => x.as_bytes().cmp(y.as_bytes()),
+        _ if a.is_number() && b.is_number() => {
+            let ((ia, fa), (ib, fb)) = (num(a), num(b));
+            match (ia, ib) {
+                (Some(x), Some(y)) => x.cmp(&y),
+                // filters are only generated under number profiles where this conversion is exact and no NaN exists
+                _ => fa.partial_cmp(&fb).unwrap_or(Equal),
+            }
+        }
+        _ => rank(a).cmp(&rank(b)),
+    }
+}
+
 fn operand_values<'a>(o: &'a Operand, cur: &'a MVal, root: &'a MVal) -> Vec<&'a MVal> {
     match o {
         Operand::Lit(v) => vec![v],
@@ -306,6 +342,23 @@ fn eval_expr(e: &MExpr, cur: &MVal, root: &MVal) -> bool {
             let ls = operand_values(l, cur, root);
             let rs = operand_values(r, cur, root);
             ls.iter().any(|x| rs.iter().any(|y| scalar_eq(x, y)))
+        }
+        MExpr::Cmp(op, l, r) => {
+            use std::cmp::Ordering::*;
+            let ls = operand_values(l, cur, root);
+            let rs = operand_values(r, cur, root);
+            ls.iter().any(|x| {
+                rs.iter().any(|y| {
+                    let o = scalar_order(x, y);
+                    match op.as_str() {
+                        "!=" => o != Equal,
+                        "<" => o == Less,
+                        "<=" => o != Greater,
+                        ">" => o == Greater,
+                        _ => o != Less,
+                    }
+                })
+            })
         }
         MExpr::Exists(from_cur, steps) => !walk(if *from_cur { cur } else { root }, steps, root).is_empty(),
         MExpr::And(l, r) => eval_expr(l, cur, root) && eval_expr(r, cur, root),
